@@ -131,6 +131,10 @@ impl SchedCmd {
 
 #[derive(Clone, Debug, Serialize, Deserialize, PartialEq)]
 pub struct SchedCase {
+    /// sample names written into the `-f` list file when they differ from the file stems (used to
+    /// give two samples the same name, which ska allows)
+    #[serde(default, skip_serializing_if = "Option::is_none")]
+    pub list_names: Option<Vec<String>>,
     pub k: usize,
     pub single_strand: bool,
     pub samples: Vec<Sample>,
@@ -280,7 +284,18 @@ impl Workload for SchedWorkload {
                 o.deletions = rng.chance(50);
                 o.repeats = rng.chance(30);
                 let samples = gen_samples(&mut rng, n, k, &o, "s");
+                // two samples with the same name (e.g. */contigs.fa from two directories), one in each
+                // half of the list
+                let list_names = if kind == "build-list" && n >= 4 && rng.chance(25) {
+                    let mut names: Vec<String> = samples.iter().map(|s| s.name.clone()).collect();
+                    let (i, j) = (rng.below(n / 2), n / 2 + rng.below(n - n / 2));
+                    names[j] = names[i].clone();
+                    Some(names)
+                } else {
+                    None
+                };
                 SchedCase {
+                    list_names,
                     k,
                     single_strand: rng.chance(30),
                     samples,
@@ -329,6 +344,7 @@ impl Workload for SchedWorkload {
                 };
                 let is_map = kind.starts_with("map");
                 SchedCase {
+                    list_names: None,
                     k,
                     single_strand: !seq_input && rng.chance(30),
                     samples: all,
@@ -359,6 +375,7 @@ impl Workload for SchedWorkload {
                 r.records = vec![("chr".into(), joined)];
                 r.name = "ref".into();
                 SchedCase {
+                    list_names: None,
                     k,
                     // lo accepts single-strand files too (a k-mer and its reverse complement can then
                     // both be rows of the table)
@@ -388,7 +405,12 @@ impl Workload for SchedWorkload {
             dir.write(&r.file(), r.fasta().as_bytes());
         }
         let files: Vec<String> = c.samples.iter().map(|s| s.file()).collect();
-        let list: String = c.samples.iter().map(|s| format!("{}\t{}\n", s.name, s.file())).collect();
+        let list: String = c
+            .samples
+            .iter()
+            .enumerate()
+            .map(|(i, s)| format!("{}\t{}\n", c.list_names.as_ref().and_then(|l| l.get(i)).unwrap_or(&s.name), s.file()))
+            .collect();
         dir.write("list.txt", list.as_bytes());
         let mut build_args = |outp: &str, threads: usize, use_list: bool| -> Vec<String> {
             let mut a = vec!["build".to_string(), "-o".into(), outp.into(), "-k".into(), c.k.to_string()];
@@ -620,12 +642,20 @@ impl Workload for SchedWorkload {
         if c.samples.len() > 2 {
             let mut d = c.clone();
             d.samples.truncate(c.samples.len() / 2 + c.samples.len() % 2);
+            if let Some(l) = d.list_names.as_mut() {
+                l.truncate(d.samples.len());
+            }
             if d.samples.len() >= 2 {
                 v.push(d);
             }
             for i in 0..c.samples.len() {
                 let mut d = c.clone();
                 d.samples.remove(i);
+                if let Some(l) = d.list_names.as_mut() {
+                    if i < l.len() {
+                        l.remove(i);
+                    }
+                }
                 v.push(d);
             }
         }
